@@ -4,7 +4,7 @@ import json
 import os
 
 V = os.path.dirname(os.path.dirname(os.path.abspath(__file__)))
-HOOK_COMMITS = ["9b615ed", "0f2a307", "ccdb599", "d17c727"]
+HOOK_COMMITS = ["9b615ed", "0f2a307", "ccdb599", "d17c727", "e6d9d10"]
 
 CHECKS = {
  "C01": dict(
@@ -217,13 +217,32 @@ CHECKS = {
        "line as -c does (spec/MCEntry.tla), and for every positional reference x quote context x neighbour word with escapes x "
        "argument values that the pass yields exactly the directly written expectation (spec/MCEntryArgs.tla, 18 942 cases). "
        "Binding: the lines of the C01 / C03 / C04 / C10 / C11 / C12 generators (their TLC models) go through the real expand_args "
-       "and the real tokenizer in-process (every line), and a stratified sample (thorough: every line) runs through -c, a script "
+       "and the real tokenizer in-process (every line), and a stratified sample (quick 1 800, thorough 60 000 lines) runs through -c, a script "
        "file, a function body and a sourced file, plus a sample typed at a pseudo-terminal prompt; helper logs (argv, stdin), "
        "output, files and status are compared pairwise with the -c run. The MCEntryArgs cases run as scripts with arguments.",
   design_ref="DESIGN.md 3.11, 6 (C16)",
   note="Trusted: TLC, helper programs; at the prompt the output streams are the terminal and are not compared (argv, files, status "
        "are); lines with control characters, !! or a trailing backslash are not typed at the prompt; $$ is normalised.",
   technique="TLA+ model of the entry pipelines checked by TLC (incl. negative control); TLC-generated lines replayed through the five entry points of the binary and compared with -c"),
+ "C05": dict(
+  category="exploration",
+  text="The submission / answer / sentinel protocol with the failure actions Crash, Hang, DeadProbe is a TLA+ specification "
+       "(spec/Robust.tla; TLC checks NeverDead and Responsive under fairness). TLC enumerates every string up to length 4 "
+       "(thorough 5; 6 for the tokenizer-level stages) over three 14-symbol alphabets (quoting / substitution, redirection / brace, "
+       "arithmetic), classifies each with the reference reader (totality checked) and simulates strings up to length 12 "
+       "(spec/MCRobust.tla). Every string goes through every pure stage of the real code in-process (line_to_cmds, parse_line, "
+       "tokens_to_line, tokens_to_redirections, Command::from_tokens, CommandLine::from_line with all expansions, is_arithmetic / "
+       "run_calculator, the script grammar, escaped_word_start, complete_path, trim_multiline_prompts, extend_bangbang), each stage "
+       "under catch_unwind, each case under a watchdog; seeded grammar- and mutation-based lines up to 200 characters (multi-byte "
+       "text included) run through -c / script + sentinel / stdin of the real binary; random key sequences (printable Unicode, TAB, "
+       "Enter, Ctrl-C, arrows, editing keys) are typed at a pseudo-terminal prompt and followed by a sentinel command. The "
+       "recorded answers are validated by TLC against the protocol (spec/TraceRobust.tla).",
+  design_ref="DESIGN.md 6 (C05), 9",
+  note="For this property the detection power is the harness's panic / abort / time-out capture; TLC is the enumerator and the "
+       "referee of the recorded traces (stated in DESIGN.md 9). A time-out is re-run with a 10x budget; a shell blocked in wait4 on "
+       "a program the input started is not a hang of the shell; strings that glob the whole file system from / skip the planner "
+       "stage; ranges of more than 200 000 elements are not generated.",
+  technique="TLA+ protocol spec + TLC enumeration of the input space; exhaustive in-process stage sweep, process / pty fuzz, recorded answers validated by TLC"),
  "C06": dict(
   category="model_checking",
   text="TLC explores every interleaving of child status changes (with Linux's report coalescing), foreground-wait iterations, "
